@@ -38,6 +38,21 @@ CLAIMED = {
             "For every commit, apply_pending_commit, process_incoming_message (commit / proposal / application incl. late messages), join_group, external commit, load_group and write_to_storage in the sampled histories, call index 0,1,2,... of the operation's storage calls is failed cleanly, one failed attempt after the other: each must return Err, leave the member's complete state (H1) and the stored history / key-package store unchanged; the first attempt in which no fault fires is the fault-free execution, and for operations that do not write, the same operation re-run from the saved pre-operation member must end in the identical state. The enumeration is complete per operation instance (all call indices); histories are sampled. Clean failures only.",
             "trusted: H1 covers all member state; the crypto PRNG is rewound before every attempt (DESIGN §6.C15); one known finding (write_to_storage is not atomic across the two stores) is listed in known_findings.json",
             "DESIGN.md §6.C15"),
+    "C02": ("exploration",
+            "deterministic simulation with a recording crypto seam: every HPKE seal made while a simulated member builds a commit is attributed and compared with the copath resolutions of the new tree computed by the reference model; removed members' objects are kept alive and fed every later message",
+            "Oracle A: for every commit built in every run the recorded HPKE recipient keys must be exactly (i) the keys in the resolutions of the committer's copath in the NEW tree (obtained by applying the commit on a clone; resolution by the independent reference tree model) minus leaves added by the commit, and (ii) the init keys of the key packages in the Welcome; never a key that sat at a removed leaf or on its blanked direct path, never an HPKE sender set-up. Oracle B: the group object of every removed party (removed by commit, by proposal, replaced through external commit) stays alive and is fed every later commit, proposal and application message: all must fail, its epoch must not move, and its epoch authenticator must never equal a later epoch's.",
+            "trusted: reference tree parser / resolution (refmls.rs, checked against the library by the C08 tree-hash oracle), the recording wrapper around the crypto provider",
+            "DESIGN.md §6.C02"),
+    "C08": ("exploration",
+            "deterministic simulation: after every epoch change every member's exported tree is re-hashed from scratch by an independent reference implementation and fed, with the member's GroupInfo, to a fresh external observer (the library's full joiner validation); leftmost-blank rule checked against the previous epoch's tree",
+            "For every member that reaches an epoch (committer, receiver, Welcome joiner, external joiner, reloaded member): the exported node vector is parsed by the reference reader, its tree hash recomputed from the RFC definition must equal context().tree_hash, structural rules hold (no trailing blank, unmerged lists strictly increasing, inside the subtree, non-blank), leaves added by the commit occupy exactly the leftmost blanks of the previous tree after its removals, and (sampled 1 in 3) GroupInfo + tree pass ExternalClient::observe_group. Histories grow, shrink and regrow trees to 32 leaves with interior blanks and unmerged leaves (probes in evidence).",
+            "trusted: refmls.rs (written from RFC 9420 §4, §7.8; sha2 crate)",
+            "DESIGN.md §6.C08"),
+    "C09": ("exploration",
+            "deterministic simulation: after every epoch change each member's stored private keys (hook H3) are checked against its exported tree by sealing to the node's public key and opening with the stored key",
+            "For every member and epoch: a leaf key exists; every stored direct-path key sits at a non-blank node and opens an HPKE ciphertext sealed to that node's public key; no key for blank nodes or beyond the root; after a commit with update path every non-blank node on the committer's direct path carries a key absent from the previous epoch's tree; once a member's leaf key changed, the old key bytes occur nowhere in its complete state (H1).",
+            "trusted: hooks H1/H3, reference tree model for path positions",
+            "DESIGN.md §6.C09"),
 }
 
 NOT_APPLICABLE = {
